@@ -81,8 +81,8 @@ seeded changes and which check catches which in §11.
   statements (C09 independence, C13 end to end, C14, the round trip of C15/C16, agreement of `fill_inplace` with `wrap`,
   C08's second sentence), the real
   tables of `unicode-linebreak` / `unicode-width` / `smawk` behind the assumed shapes.
-* **Robustness of the machinery** (§8, §11): 120 seeded property-breaking changes that compile and pass the upstream suite
-  (5 reverted fixes + 115 from independent sub-agents in seven waves) are all reported; 25 behaviour-preserving refactors
+* **Robustness of the machinery** (§8, §11): 133 seeded property-breaking changes that compile and pass the upstream suite
+  (5 reverted fixes + 128 from independent sub-agents in eight waves) are all reported; 25 behaviour-preserving refactors
   raise no alarm; every unit verifies under 8 different SMT seeds; the unchanged tree passes all 20 checks in both tiers.
 """)
 w(s1.rstrip()+"\n")
@@ -342,11 +342,12 @@ the property states.
 
 ## 11. Seeded changes and what catches them
 
-`seeded/` holds 120 changes that compile, pass the upstream suite in both feature sets, and break a property: the 5
-reverted fixes and 115 produced by independent sub-agents given **only** the property text and a scratch worktree (wave 1–2:
+`seeded/` holds 133 changes that compile, pass the upstream suite in both feature sets, and break a property: the 5
+reverted fixes and 128 produced by independent sub-agents given **only** the property text and a scratch worktree (wave 1–2:
 two per property; wave 3: cooperating edits / indirect helpers / wrong fast paths; wave 4–5: changes that need something
 specific to manifest, avoiding the most obvious single-token edits; wave 6: with a hint which file to change; wave 7: with the
-ideas that earlier waves over-used forbidden (ASCII width shortcuts, `trim_end()`, byte lengths of indents, early return in `refill`)). Each was confirmed by `tools/seedverify.sh` (patch applies; suite passes in both feature sets;
+ideas that earlier waves over-used forbidden (ASCII width shortcuts, `trim_end()`, byte lengths of indents, early return in `refill`);
+wave 8: changes that only show with a non-default option value or feature set — all 13 reported without any strengthening). Each was confirmed by `tools/seedverify.sh` (patch applies; suite passes in both feature sets;
 its demonstration fails with the patch and passes without). `tools/seedtest.py` applies each to `/repo`, runs the checks
 of the properties it breaks, and undoes it; `seeded/RESULTS.json` is its output and **`seeded/RESULTS.md` the full table**
 (seed, property, files changed, Verus obligations failed, BEC contracts failed, undecided units, verdict).
